@@ -259,7 +259,31 @@ func blsSummary(fr *frame, fn *ssa.Function, name string, args []value) (value, 
 	case isPK && meth == "Serialize":
 		return append([]value{}, blsGet(args[0].(*value), 48)...), true
 	case isPK && (meth == "SerializeToHexStr" || meth == "GetHexString"):
-		return "<bls-pk>", true
+		b := blsGet(args[0].(*value), 48)
+		const hexd = "0123456789abcdef"
+		out := make([]byte, 0, 96)
+		for _, x := range b {
+			c, ok := x.(byte)
+			if !ok {
+				return "<bls-pk>", true
+			}
+			out = append(out, hexd[c>>4], hexd[c&15])
+		}
+		return string(out), true
+	case strings.HasPrefix(name, "(*"+blsPkg+"SecretKey).") && meth == "GetPublicKey":
+		// the public key of a secret key: carries the same identity byte
+		sk := blsGet(args[0].(*value), 32)
+		cell := zero(mustDeref(fn.Signature.Results().At(0).Type()))
+		pkb := make([]value, 48)
+		for i := range pkb {
+			pkb[i] = byte(0)
+		}
+		pkb[0] = sk[0]
+		p := &cell
+		blsSet(p, pkb)
+		return p, true
+	case strings.HasPrefix(name, "(*"+blsPkg+"SecretKey).") && meth == "Serialize":
+		return append([]value{}, blsGet(args[0].(*value), 32)...), true
 	case isPK && meth == "IsEqual":
 		a := blsGet(args[0].(*value), 48)
 		b := blsGet(args[1].(*value), 48)
